@@ -26,6 +26,16 @@ def gen(rng, ctx):
         from rv.gen import libnets
 
         return {"lib": libnets.pick(rng, ctx.tier) if ctx.gen_index else ["c17", "s27", "c432", "mux_4"][ctx.index % 4], "op": rng.choice(["limit_fanin", "limit_fanout", "insert_registers", "acyclic_unroll"]), "k": rng.randint(2, 4), "stages": rng.randint(1, 3), "seed": rng.getrandbits(32)}
+    if ctx.gen_index == 2 and ctx.index < 2:
+        n_ = rng.randint(1100, 1400)
+        cd = G.new_cdict("hub")
+        cd["nodes"] += [["h", "input", False], ["s", "input", False]]
+        for j in range(n_):
+            cd["nodes"].append([f"l{j}", rng.choice(["and", "or", "xor", "not", "buf"]) if j % 7 else "nand", True])
+            cd["edges"].append(["h", f"l{j}"])
+            if cd["nodes"][-1][1] not in ("not", "buf"):
+                cd["edges"].append(["s", f"l{j}"])
+        return {"op": "limit_fanout", "c": cd, "kind": "huge_fanout", "k": 2 + ctx.index, "stages": 1, "repeat": False, "custom_ff": False}
     op = rng.choice(["limit_fanin", "limit_fanin", "limit_fanout", "insert_registers", "acyclic_unroll"])
     ni = rng.randint(2, 6 if not big else 8)
     ng = rng.randint(2, 9 if not big else 14)
